@@ -13,13 +13,18 @@ Proved here, for paths of any length over groups of any depth (`pathSum` = the f
 * `plain_unresolved`        a path of plain connections sums to zero
 * `found_cycle_is_zero`     the cycle named in the error has an all-zero stored delay
 
-NOT proved yet (see DESIGN.md): that the worklist reaches the minimum for every pop order
-(`reject_complete`, `terminates`) and that stored paths are real paths (`reject_sound`); these are
+* `reject_sound`            no false rejections: for every pop order of the worklist, the cycle named in
+                            the ScenarioError is a real cycle of connections whose accumulated delay is
+                            all-zero (every stored delay is the sum along a real path: `Closure/Sound.lean`)
+
+NOT proved yet (see DESIGN.md): that the worklist reaches the minimum for every pop order and
+terminates within the fuel (`reject_complete`: no unresolved cycle is missed); this is
 decided by the correspondence (model = code for several pop orders) and by the graph-level
 specification monitor on the implementation.
 -/
 import MosaikModel.Closure
 import MosaikProofs.Lemmas.Tiered
+import MosaikProofs.Closure.Sound
 namespace Mosaik.C06
 open Mosaik TI
 
@@ -190,6 +195,15 @@ theorem accepted_iff (n : Nat) (descs : Descs) :
       simp only
       rw [h s (by simpa using hs) d p hg]
       simp
+
+/-- **no false rejections** (statement and proof: `Closure/Sound.lean`) -/
+theorem reject_sound (sims : List SimCfg) (orc : List Nat) (p : List Sid) (h : ensureNoCycles sims orc = .cycle p) :
+    ∃ s d, s < sims.length ∧ RealPath sims s s p d ∧ d.isZero = true :=
+  Mosaik.reject_sound sims orc p h
+
+/-- non-vacuity: two simulators feeding each other over plain connections are rejected, and the named cycle is real -/
+example : ensureNoCycles [{ inputDelays := [(1, ⟨1, 1, [0]⟩)] }, { inputDelays := [(0, ⟨1, 1, [0]⟩)] }] [] = .cycle [0, 1, 0] := by
+  decide
 
 /-! non-vacuity: A → B plain, B → A weak inside a group: resolved; the same through an outside
 simulator X (B → X → A): the weak step is erased, the cycle is unresolved -/
